@@ -25,7 +25,9 @@ CLAIM = dict(
          "non-canonical and oversized compact sizes are rejected exactly at the canonical boundaries which the writer uses, and that txid/wtxid hash the "
          "no-witness/with-witness serialisations.",
     note="Not decided: text encodings (hex, base58, base64, base32, money, integer strings: algorithmic, N/A part); P2P message payload classes other than tx/block/header; "
-         "the scalar/vector/script formatters themselves; equality of round-tripped objects as a behavioural fact.",
+         "the scalar/vector/script formatters themselves; equality of round-tripped objects as a behavioural fact. Known blind spot: which formatter a field uses "
+         "(e.g. Using<CompactSizeFormatter<false>> vs COMPACTSIZE = <true> for the addrv2 services field of CAddress) cannot be decided, because the fact format drops "
+         "template arguments of wrapper calls and keeps one instantiation per qualified name.",
     ref="DESIGN.md §3 C48")
 
 
